@@ -69,9 +69,25 @@ func c08Scopes() []c08Scope {
 	return []c08Scope{
 		{"asis@1.1.1.1", &udpRequest{realDst: netip.MustParseAddrPort("1.1.1.1:53")}, consts.DnsRequestOutboundIndex_AsIs, nil},
 		{"asis@8.8.8.8", &udpRequest{realDst: netip.MustParseAddrPort("8.8.8.8:53")}, consts.DnsRequestOutboundIndex_AsIs, nil},
-		{"upstream", nil, 0, &componentdns.Upstream{Scheme: componentdns.UpstreamScheme_UDP, Hostname: "dns.test", Port: 53}},
 		{"unscoped", nil, 0, nil},
+		// pool of upstream servers; a generation (controller config) routes to 2-3 of
+		// them, the routing index of one is its position in that generation's list.
+		// The scope identity of the model is the server (URL), never the index.
+		{"upstream@udp://dns.test:53", nil, 0, &componentdns.Upstream{Scheme: componentdns.UpstreamScheme_UDP, Hostname: "dns.test", Port: 53}},
+		{"upstream@tcp://dns.test:53", nil, 0, &componentdns.Upstream{Scheme: componentdns.UpstreamScheme_TCP, Hostname: "dns.test", Port: 53}},
+		{"upstream@udp://dns2.test:5353", nil, 0, &componentdns.Upstream{Scheme: componentdns.UpstreamScheme_UDP, Hostname: "dns2.test", Port: 5353}},
+		{"upstream@https://doh.test:443/dns-query", nil, 0, &componentdns.Upstream{Scheme: componentdns.UpstreamScheme_HTTPS, Hostname: "doh.test", Port: 443, Path: "/dns-query"}},
 	}
+}
+
+const c08FirstUpstreamScope = 3
+
+// c08GenUpstreams draws a generation's upstream list: 2-3 servers of the pool in
+// some order (so a reload can replace, reorder, add or remove upstreams).
+func c08GenUpstreams(t *rapid.T) []int {
+	pool := []int{c08FirstUpstreamScope, c08FirstUpstreamScope + 1, c08FirstUpstreamScope + 2, c08FirstUpstreamScope + 3}
+	perm := rapid.Permutation(pool).Draw(t, "upstreams")
+	return perm[:rapid.IntRange(2, 3).Draw(t, "nUpstreams")]
 }
 
 type c08Cfg struct {
@@ -130,6 +146,8 @@ type c08State struct {
 	c        *DnsController
 	cfg      c08Cfg
 	scopes   []c08Scope
+	ups      []int // scope ids of the current generation's upstreams, by routing index
+	upsMoved bool  // some reload changed the upstream list
 	model    map[c08Key]*c08Entry
 	nextTick time.Time
 	counter  int
@@ -230,7 +248,54 @@ func (s *c08State) actualKeys() map[string]bool {
 // the trailing dot) in a scope: cacheKey + responseCacheKey, as HandleWithResponseWriter_ does.
 func (s *c08State) prodKey(qname string, k c08Key) string {
 	sc := s.scopes[k.Scope]
-	return s.c.responseCacheKey(s.c.cacheKey(qname, k.Qtype), sc.req, sc.idx, sc.up)
+	idx := sc.idx
+	if sc.up != nil {
+		pos := s.routeIndex(k.Scope)
+		if pos < 0 {
+			panic(fmt.Sprintf("c08 harness: scope %s is not routable in this generation", sc.tag))
+		}
+		idx = consts.DnsRequestOutboundIndex(pos)
+	}
+	// responseCacheKey -> responseCacheScope of the current generation's facade
+	return s.c.responseCacheKey(s.c.cacheKey(qname, k.Qtype), sc.req, idx, sc.up)
+}
+
+// routeIndex: the routing index of an upstream scope in the current generation, -1
+// if this generation does not route to that server (or the scope is not an upstream).
+func (s *c08State) routeIndex(scope int) int {
+	for i, u := range s.ups {
+		if u == scope {
+			return i
+		}
+	}
+	return -1
+}
+
+func (s *c08State) routable(scope int) bool {
+	return scope < c08FirstUpstreamScope || s.routeIndex(scope) >= 0
+}
+
+func (s *c08State) genScope(t *rapid.T) int {
+	cands := append([]int{0, 1, 2}, s.ups...)
+	cands = append(cands, s.ups...) // upstream scopes twice as likely
+	return rapid.SampledFrom(cands).Draw(t, "scope")
+}
+
+func (s *c08State) changeUpstreams(t *rapid.T, how string) {
+	if !rapid.Bool().Draw(t, "newUpstreams") {
+		return
+	}
+	nu := c08GenUpstreams(t)
+	same := len(nu) == len(s.ups)
+	for i := 0; same && i < len(nu); i++ {
+		same = nu[i] == s.ups[i]
+	}
+	s.ups = nu
+	if !same {
+		s.upsMoved = true
+		s.cls("upstreams_changed_at_" + how)
+	}
+	fmt.Fprintf(&s.trace, "UP(%v);", nu)
 }
 
 func c08Mangle(t *rapid.T, n string) (string, bool) {
@@ -273,7 +338,7 @@ func (s *c08State) genKey(t *rapid.T, preferPresent bool) c08Key {
 		k := rapid.SampledFrom(ks).Draw(t, "presentKey")
 		switch rapid.IntRange(0, 6).Draw(t, "neighbour") {
 		case 0: // same name/type, another scope
-			k.Scope = rapid.IntRange(0, len(s.scopes)-1).Draw(t, "scope")
+			k.Scope = s.genScope(t)
 		case 1, 2: // same name/scope, a type that shares the low byte or is adjacent
 			if sib := c08Siblings(k.Qtype); len(sib) > 0 {
 				k.Qtype = rapid.SampledFrom(sib).Draw(t, "siblingType")
@@ -283,12 +348,15 @@ func (s *c08State) genKey(t *rapid.T, preferPresent bool) c08Key {
 		case 3: // same name/scope, any other type
 			k.Qtype = rapid.SampledFrom(c08Qtypes).Draw(t, "qtype")
 		}
+		if !s.routable(k.Scope) { // cached for a server this generation does not route to
+			k.Scope = s.genScope(t)
+		}
 		return k
 	}
 	return c08Key{
 		Name:  rapid.IntRange(0, len(c08Names)-1).Draw(t, "name"),
 		Qtype: rapid.SampledFrom(c08Qtypes).Draw(t, "qtype"),
-		Scope: rapid.IntRange(0, len(s.scopes)-1).Draw(t, "scope"),
+		Scope: s.genScope(t),
 	}
 }
 
@@ -534,6 +602,14 @@ func (s *c08State) lookup(t *rapid.T, k c08Key) {
 			nontrivial = true
 			s.cls("lookup_sibling_scope_present")
 			break
+		}
+	}
+
+	if k.Scope >= c08FirstUpstreamScope {
+		s.cls("lookup_upstream_scope")
+		if s.upsMoved {
+			s.cls("lookup_upstream_scope_after_upstreams_changed")
+			nontrivial = true
 		}
 	}
 
@@ -844,6 +920,7 @@ func (s *c08State) reload(t *rapid.T) {
 	s.c = nc
 	s.cfg = newCfg
 	s.reuses = 0
+	s.changeUpstreams(t, "clone_reload")
 	s.nextTick = time.Now().Add(dnsCacheJanitorInterval)
 	_ = old.Close()
 	synctest.Wait()
@@ -881,6 +958,7 @@ func (s *c08State) reuse(t *rapid.T) {
 	s.c = nc
 	s.cfg = newCfg
 	s.reuses++
+	s.changeUpstreams(t, "reuse_reload")
 	s.cls("reload_reuse")
 	if s.reuses >= 2 {
 		s.cls("reload_reuse_twice")
@@ -923,6 +1001,7 @@ func c08RunCase(t *rapid.T) {
 		classes: map[string]bool{},
 	}
 	s.cfg = c08GenCfg(t)
+	s.ups = c08GenUpstreams(t)
 	cfg0 := s.cfg
 	c, err := c08NewController(s.log, s.cfg)
 	if err != nil {
@@ -947,7 +1026,7 @@ func c08RunCase(t *rapid.T) {
 	lookup := func(t *rapid.T) { s.lookup(t, s.genKey(t, true)) }
 	boundary := func(t *rapid.T) {
 		k, ok := s.advanceToBoundary(t)
-		if ok && rapid.IntRange(0, 9).Draw(t, "thenLookup") < 8 {
+		if ok && s.routable(k.Scope) && rapid.IntRange(0, 9).Draw(t, "thenLookup") < 8 {
 			s.lookup(t, k)
 			if rapid.IntRange(0, 2).Draw(t, "again") == 0 {
 				s.lookup(t, k)
